@@ -270,7 +270,10 @@ def _dec_table(lib, b, S, pulls):
             return "unknown", "lead byte 0x%02x: result is not a pair" % v
         end, ch = tup[1]
         last = F(P(C(anykey, ANY, site=psite[got[-1]["bb"]])), "0", "(tuple)")
-        if not m(B("Add", last, K(1)), end):
+        first_i = F(P(C(anykey, ANY, site=psite[got[0]["bb"]])), "0", "(tuple)")
+        # (index of the last byte pulled) + 1, or (index of the lead byte) + width: the source numbers bytes consecutively
+        # (clause enumerate-from-zero: `inner` is `enumerate()` over the raw byte source)
+        if not (m(B("Add", last, K(1)), end) or m(B("Add", first_i, K(w)), end)):
             return "mismatch", "lead byte 0x%02x: the end offset must be (index of byte %d) + 1; found %s" % (v, w, show(end))
         code = ch
         for _ in range(3):
